@@ -61,6 +61,9 @@ def random_exec(rng, nops, big):
             continue
         o = rng.choice(sorted(objs)); h = objs[o]
         r = rng.random()
+        if rng.random() < 0.04:                                          # an open that fails (also over an open stream): the File is closed afterwards
+            L.append("open %d 9 %d" % (o, rng.choice([1, 2, 3, 4, 5, 6]))); objs[o] = dict(open=False)
+            continue
         if not h["open"]:
             if r < 0.5:
                 busy = {v["path"] for v in objs.values() if v.get("open")}
